@@ -95,7 +95,7 @@ def Rule(name, body, **params):
 # ------------------------------------------------------------ rendering
 def _q(s):
     return "'" + s.replace('\\', '\\\\').replace("'", "\\'").replace('\n', '\\n').replace(
-        '\t', '\\t') + "'"
+        '\t', '\\t').replace('\r', '\\r') + "'"
 
 
 def _mods(sep, eol):
